@@ -80,3 +80,76 @@ func HarnessC07_Amf0Truncated() {
 	vAssert(true, "decoder returned")
 	vReach("c07-amf0-trunc")
 }
+
+// HarnessC07_Amf0Linear: decoding time grows no faster than linearly with the input length.
+// Inputs of three sizes n, 2n, 4n and four shapes (objects / ECMA arrays / strict arrays nested
+// n deep, one object with n properties; leaf number symbolic), written by hand in the library's
+// layout. The cost of Discovery + UnmarshalBinary is measured by vCost (engine: instructions
+// interpreted + elements copied; native replay: wall time, best of 3, at a size where one decode
+// takes milliseconds). For a linear decoder the increments satisfy
+// cost(4n)-cost(2n) = 2 (cost(2n)-cost(n)); a quadratic one gives a factor of 4. Wall time is
+// noisy, so the native confirmation uses the coarser cost(4n) <= 9 cost(n) (linear: 4, quadratic: 16).
+func HarnessC07_Amf0Linear() {
+	kind := vChoice(4)
+	leaf := vU64()
+	build := func(n int) []byte {
+		num := []byte{0, byte(leaf >> 56), byte(leaf >> 48), byte(leaf >> 40), byte(leaf >> 32), byte(leaf >> 24), byte(leaf >> 16), byte(leaf >> 8), byte(leaf)}
+		var b []byte
+		if kind == 3 {
+			b = append(b, 3)
+			for i := 0; i < n; i++ {
+				b = append(b, 0, 3, byte('a'+i%26), byte('a'+i/26%26), byte('a'+i/676%26), 5)
+			}
+			b = append(b, 0, 4, 'l', 'e', 'a', 'f')
+			b = append(b, num...)
+			return append(b, 0, 0, 9)
+		}
+		for i := 0; i < n; i++ {
+			switch kind {
+			case 0:
+				b = append(b, 3, 0, 1, 'a')
+			case 1:
+				b = append(b, 8, 0, 0, 0, 1, 0, 1, 'a')
+			default:
+				b = append(b, 10, 0, 0, 0, 1, 0, 1, 'a') // the library's strict array carries keys
+			}
+		}
+		b = append(b, num...)
+		if kind != 2 {
+			for i := 0; i < n; i++ {
+				b = append(b, 0, 0, 9)
+			}
+		}
+		return b
+	}
+	reps := vScale(3)
+	cost := func(n int) int {
+		data := build(n)
+		best := -1
+		for r := 0; r < reps; r++ {
+			c0 := vCost()
+			a, err := Discovery(data)
+			if err == nil {
+				err = a.UnmarshalBinary(data)
+			}
+			c := vCost() - c0
+			vAssert(err == nil, "a well-formed encoding decodes")
+			if best < 0 || c < best {
+				best = c
+			}
+		}
+		return best
+	}
+	base := 16
+	if vScale(2) == 2 {
+		// native replay: grow the size until one decode takes 4 ms (or the input reaches ~64 KiB)
+		base = 512
+		for base < 8192 && cost(base) < 4000000 {
+			base *= 2
+		}
+	}
+	c1, c2, c3 := cost(base), cost(2*base), cost(4*base)
+	d1, d2 := c2-c1, c3-c2
+	vAssertNative(d2*10 <= d1*25, func() bool { return c3 <= 9*c1 }, "decoding cost grows no faster than linearly with the input length (cost(4n)-cost(2n) <= 2.5 (cost(2n)-cost(n)))")
+	vReach("c07-amf0-linear")
+}
